@@ -536,3 +536,64 @@ func Place2(t *rapid.T, n *Node, S float64) *Node {
 	x := &gen{t: t, o: Opts{S: S}, c: 100000}
 	return x.rigid2(n)
 }
+
+// GenExact3 draws a program over the exact (distance-preserving) sub-grammar:
+// an exact leaf under up to depth wrappers from {rigid transform, uniform
+// scale, outward offset}, or the full revolution of an exact 2D profile lying
+// on one side of the axis.
+func GenExact3(t *rapid.T, S float64, depth int) *Node {
+	x := &gen{t: t, o: Opts{S: S}}
+	var n *Node
+	if x.intr("rev", 0, 4) == 0 {
+		// profile: exact 2D leaf, rotated, moved so that it lies in x >= 0
+		var leaf *Node
+		var ext float64
+		switch x.pick("pleaf", []string{"circle", "box2", "line2"}) {
+		case "circle":
+			r := x.length("r", 0.05, 1)
+			leaf, ext = &Node{Op: "circle", P: []float64{r}}, r
+		case "box2":
+			a, b := x.length("w", 0.05, 2), x.length("h", 0.05, 2)
+			leaf, ext = &Node{Op: "box2", P: []float64{a, b, x.roundUpTo(math.Min(a, b) / 2)}}, math.Hypot(a, b)/2
+		default:
+			l, rd := x.length("l", 0.05, 2), x.length("rd", 0.02, 0.5)
+			leaf, ext = &Node{Op: "line2", P: []float64{l, rd}}, l/2+rd
+		}
+		px := ext * (1 + 2*x.unit("px"))
+		if x.intr("touch", 0, 3) == 0 {
+			px = ext // profile touching the axis at most in one point
+		}
+		prof := &Node{Op: "xform2", K: []*Node{leaf}, I: []int{0}, P: []float64{x.angle("pang"), px, x.coord("py", 1)}}
+		n = &Node{Op: "revolve", K: []*Node{prof}}
+	} else {
+		n = x.leaf3()
+	}
+	for i := 0; i < depth; i++ {
+		switch x.pick("wrap", []string{"xform3", "xform3", "scale3", "offset3"}) {
+		case "xform3":
+			n = x.rigid3(n)
+		case "scale3":
+			n = &Node{Op: "scale3", K: []*Node{n}, P: []float64{g.LogUniform(x.t, x.lbl("k"), 0.2, 5)}}
+		default:
+			n = &Node{Op: "offset3", K: []*Node{n}, P: []float64{x.length("d", 0.005, 0.5)}}
+		}
+	}
+	return n
+}
+
+// GenExact2 is the 2D analogue of GenExact3.
+func GenExact2(t *rapid.T, S float64, depth int) *Node {
+	x := &gen{t: t, o: Opts{S: S, NoPoly: true}}
+	n := x.leaf2()
+	for i := 0; i < depth; i++ {
+		switch x.pick("wrap", []string{"xform2", "xform2", "scale2", "offset2"}) {
+		case "xform2":
+			n = x.rigid2(n)
+		case "scale2":
+			n = &Node{Op: "scale2", K: []*Node{n}, P: []float64{g.LogUniform(x.t, x.lbl("k"), 0.2, 5)}}
+		default:
+			n = &Node{Op: "offset2", K: []*Node{n}, P: []float64{x.length("d", 0.005, 0.5)}}
+		}
+	}
+	return n
+}
